@@ -1840,6 +1840,14 @@ impl<'a> HistoryIterator<'a> {
 			return Ok(false);
 		}
 
+		// The entry we stand on was listed: the key's newest version is no hard delete,
+		// and everything older is hidden if the entry is a REPLACE.
+		let current = InternalKeyRef::from_encoded(&current_internal_key);
+		self.current_user_key = current.user_key().to_vec();
+		self.first_visible_seen = true;
+		self.latest_is_hard_delete = false;
+		self.barrier_seen = current.is_replace();
+
 		// Move past current entry to get the NEXT entry in forward direction
 		self.inner_next()?;
 
